@@ -4,6 +4,7 @@
 #![allow(non_snake_case)]
 
 mod c11;
+mod c15;
 mod c19;
 mod dump_grammar;
 mod dump_spirv;
@@ -26,6 +27,7 @@ fn main() {
         "sweep-spirv" => dump_spirv::sweep(&args[2]),
         "dump-grammar" => dump_grammar::dump(&args[2]),
         "c11" => c11::run(&args[2], args[3].parse().unwrap(), &args[4], &args[5]),
+        "c15" => c15::run(&args[2], args[3].parse().unwrap(), &args[4], &args[5]),
         "c19" => c19::run(&args[2], args[3].parse().unwrap(), &args[4], &args[5]),
         other => {
             eprintln!("unknown command {}", other);
